@@ -18,7 +18,9 @@ if os.path.exists(os.path.join(vlib.VERIF, "tools", "translate17.py")):
     import translate17
     translate17.regenerate()
 vlib.write_coqproject()
-targets = [f[:-2] + '.vo' for f in vlib.coq_files() if f.startswith('Properties/')] + vlib.model_vos()
+import json
+claimed = [c["property_id"] for c in json.load(open(os.path.join(vlib.VERIF, "MANIFEST.json")))["checks"]]
+targets = ["Properties/%s.vo" % p for p in claimed if os.path.exists(os.path.join(vlib.COQ, "Properties", p + ".v"))] + vlib.model_vos()
 ok, out = vlib.coq_make(targets, timeout=3000)
 print(out[-3000:])
 if not ok:
